@@ -103,8 +103,22 @@ def lean_build(targets):
     if key in _built:
         return _built[key]
     t0 = time.time()
-    rc, out, err = sh(['lake', 'build', 'driver'] + list(targets), cwd=LEAN,
-                      timeout=3000)
+    # checks of several properties may run at the same time (and share proof
+    # modules): builds of the one lake workspace are serialised by a file lock
+    import fcntl
+    os.makedirs(CACHE, exist_ok=True)
+    with open(os.path.join(CACHE, 'lake.lock'), 'w') as lk:
+        fcntl.flock(lk, fcntl.LOCK_EX)
+        try:
+            rc, out, err = sh(['lake', 'build', 'driver'] + list(targets),
+                              cwd=LEAN, timeout=3000)
+            if rc != 0:
+                # one retry: a build interrupted earlier can leave a stale
+                # trace behind
+                rc, out, err = sh(['lake', 'build', 'driver'] + list(targets),
+                                  cwd=LEAN, timeout=3000)
+        finally:
+            fcntl.flock(lk, fcntl.LOCK_UN)
     res = (rc == 0, (out + err)[-4000:], time.time() - t0)
     _built[key] = res
     return res
